@@ -142,25 +142,7 @@ def _cond(path, text, value=True):
     return any(s[0] == "cond" and U(s[1]) == text and s[2] == value for s in path)
 
 
-def run(ctx):
-    m = ctx.model
-    HB, H2, HC = m.cls("HistogramBase"), m.cls("Histogram2D"), m.cls("HistogramCollection")
-    ctx.rule("C06.a", "every store at a scaling site multiplies a field of weight-degree d by factor^(+-d), one sign per path", 7)
-    for name in ("__imul__", "__itruediv__"):
-        fi = HB.methods.get(name)
-        if fi is None:
-            raise AnalysisError(f"HistogramBase.{name} not found")
-        o = [p for p in fi.params() if p != "self"][0]
-        _check_site(ctx, fi, "self", {o}, lambda p, o=o: _cond(p, f"np.isscalar({o})"), ["frequencies", "errors2", "missed", "stats"], "scalar")
-        _check_site(ctx, fi, "self", {o}, lambda p, o=o: _cond(p, f"np.isscalar({o})", False), ["frequencies", "errors2", "missed", "stats"], "array")
-    pn = H2.methods.get("partial_normalize")
-    _check_site(ctx, pn, "self", {"divisor"}, lambda p: True, ["frequencies", "errors2"], "rows/columns")
-    nb = HC.methods.get("normalize_bins")
-    lv = [n.target.id for n in ast.walk(nb.node) if isinstance(n, ast.For) and isinstance(n.target, ast.Name)]
-    if not lv:
-        raise AnalysisError("normalize_bins: member loop not found")
-    _check_site(ctx, nb, lv[0], {"sums"}, lambda p: True, ["frequencies", "errors2"], "per-bin")
-
+def check_stats_mul(ctx, rule, m):
     # Statistics.__mul__
     S = m.cls("Statistics")
     sm = S.methods.get("__mul__")
@@ -207,13 +189,39 @@ def run(ctx):
                 if k != want[f]:
                     probs.append(f"{f} is scaled by factor^{k}, but it is of degree {want[f]} in the weights "
                                  f"(mean and variance must be invariant, the weight must scale by c)")
-            ctx.check(not probs, "C06.a", "Statistics.__mul__:degrees", "sum, sum2, weight ~ c^1; min, max, median unchanged",
+            ctx.check(not probs, rule, "Statistics.__mul__:degrees", "sum, sum2, weight ~ c^1; min, max, median unchanged",
                       " ; ".join(probs), sm.where)
         elif isinstance(ret, ast.Call) and U(ret.func) == "Statistics":
             found = True
-            ctx.bad("C06.a", "Statistics.__mul__:degrees", "result built field by field (not analysed): use dataclasses.replace", sm.where)
+            ctx.bad(rule, "Statistics.__mul__:degrees", "result built field by field (not analysed): use dataclasses.replace", sm.where)
     if not found:
-        ctx.bad("C06.a", "Statistics.__mul__:degrees", "no `dataclasses.replace(self, ...)` result found", sm.where)
+        ctx.bad(rule, "Statistics.__mul__:degrees", "no `dataclasses.replace(self, ...)` result found", sm.where)
+
+
+
+def run(ctx):
+    m = ctx.model
+    HB, H2, HC = m.cls("HistogramBase"), m.cls("Histogram2D"), m.cls("HistogramCollection")
+    ctx.rule("C06.a", "every store at a scaling site multiplies a field of weight-degree d by factor^(+-d), one sign per path", 7)
+    for name in ("__imul__", "__itruediv__"):
+        fi = HB.methods.get(name)
+        if fi is None:
+            raise AnalysisError(f"HistogramBase.{name} not found")
+        o = [p for p in fi.params() if p != "self"][0]
+        _check_site(ctx, fi, "self", {o}, lambda p, o=o: _cond(p, f"np.isscalar({o})"), ["frequencies", "errors2", "missed", "stats"], "scalar")
+        _check_site(ctx, fi, "self", {o}, lambda p, o=o: _cond(p, f"np.isscalar({o})", False), ["frequencies", "errors2", "missed", "stats"], "array")
+    pn = H2.methods.get("partial_normalize")
+    _check_site(ctx, pn, "self", {"divisor"}, lambda p: True, ["frequencies", "errors2"], "rows/columns")
+    from rules import wiring
+    wiring.axis_resolved(ctx, "C06.a", pn)
+    nb = HC.methods.get("normalize_bins")
+    lv = [n.target.id for n in ast.walk(nb.node) if isinstance(n, ast.For) and isinstance(n.target, ast.Name)]
+    if not lv:
+        raise AnalysisError("normalize_bins: member loop not found")
+    _check_site(ctx, nb, lv[0], {"sums"}, lambda p: True, ["frequencies", "errors2"], "per-bin")
+
+    check_stats_mul(ctx, "C06.a", m)
+    sm = m.cls("Statistics").methods.get("__mul__")
 
     # ---- C06.b normalisation constant ----------------------------------------------------------------
     ctx.rule("C06.b", "normalize(): in-place and copying branch scale by the same k/total for the same `percent`", 2)
